@@ -8,6 +8,7 @@ from dataclasses import dataclass, field
 from sigma.conditions import ConditionOR
 from sigma.correlations import SigmaCorrelationCondition, SigmaCorrelationRule
 from sigma.rule import SigmaRule, SigmaDetection, SigmaDetectionItem
+from sigma.modifiers import SigmaValueModifier
 from sigma.exceptions import (
     SigmaConfigurationError,
     SigmaTransformationError,
@@ -400,7 +401,12 @@ class ValueTransformation(DetectionItemTransformation):
                         # Unlike FieldMappingTransformation (which may add wildcards to values
                         # making round-tripping incorrect), ValueTransformation operates on the
                         # values directly and the new values serve as the serializable original.
-                        r.original_value = r.value.copy()
+                        # This only holds if no value modifier is left that would be applied to
+                        # the already modified values again when the plain item is loaded.
+                        if any(issubclass(m, SigmaValueModifier) for m in r.modifiers):
+                            r.disable_conversion_to_plain()
+                        else:
+                            r.original_value = r.value.copy()
                     detection.detection_items[i] = r
                     self.processing_item_applied(r)
 
